@@ -797,17 +797,17 @@ theorem setpgid_err (p : PCtx) (pg e : Nat) :
       · intro h; cases h; exact ⟨h0, h1.1, h1.2, rfl⟩
       · intro ⟨_, _, _, he⟩; rw [he]
 
-/-- the three identity steps, one after the other, then the exec -/
+/-- the three identity steps, one after the other (gid, uid, pgroup), then the exec -/
 theorem idSteps_ok (p : PCtx) (c : Cred) (q : IdReq) (ch : ChildId) :
     idSteps p c q = .ok ch ↔ ∃ c1 c2 pg,
-      optStep .setuid q.uid (setuid c) c = .ok c1 ∧ optStep .setgid q.gid (setgid c1) c1 = .ok c2 ∧
+      optStep .setgid q.gid (setgid c) c = .ok c1 ∧ optStep .setuid q.uid (setuid c1) c1 = .ok c2 ∧
         optStep .setpgid q.pgroup (setpgid p) p.callerPgid = .ok pg ∧ ch = ⟨execCred c2, pg⟩ := by
   unfold idSteps
-  cases h1 : optStep .setuid q.uid (setuid c) c with
+  cases h1 : optStep .setgid q.gid (setgid c) c with
   | error x => simp
   | ok c1 =>
     simp only
-    cases h2 : optStep .setgid q.gid (setgid c1) c1 with
+    cases h2 : optStep .setuid q.uid (setuid c1) c1 with
     | error x => simp [h2]
     | ok c2 =>
       simp only
@@ -815,85 +815,88 @@ theorem idSteps_ok (p : PCtx) (c : Cred) (q : IdReq) (ch : ChildId) :
       | error x => simp
       | ok pg => simp [h2, eq_comm]
 
+/-- the gid step leaves the uids (hence the privilege) and the supplementary groups alone -/
+theorem gidStep_keeps (c c1 : Cred) (o : Option Nat) (h : optStep .setgid o (setgid c) c = .ok c1) :
+    c1.uid = c.uid ∧ c1.groups = c.groups ∧ capable c1 = capable c := by
+  rw [optStep_ok] at h
+  cases h with
+  | inl h => rw [h.2]; exact ⟨rfl, rfl, rfl⟩
+  | inr h => obtain ⟨g, _, hs⟩ := h; obtain ⟨i, _, rfl⟩ := (setgid_ok c c1 g).1 hs; exact ⟨rfl, rfl, rfl⟩
+
+/-- the uid step leaves the gids and the supplementary groups alone -/
+theorem uidStep_keeps (c c1 : Cred) (o : Option Nat) (h : optStep .setuid o (setuid c) c = .ok c1) :
+    c1.gid = c.gid ∧ c1.groups = c.groups := by
+  rw [optStep_ok] at h
+  cases h with
+  | inl h => rw [h.2]; exact ⟨rfl, rfl⟩
+  | inr h => obtain ⟨u, _, hs⟩ := h; obtain ⟨i, _, rfl⟩ := (setuid_ok c c1 u).1 hs; exact ⟨rfl, rfl⟩
+
 /-- A PRIVILEGED caller (effective uid 0 — plain root, or a set-user-ID-root program / a daemon after
     setresuid(u, 0, 0), whatever its real and saved uid): if `spawn` is Ok the image runs with EXACTLY the requested
-    uid in all three fields; with exactly the requested gid in all three fields provided the gid step still had the
-    privilege (no uid requested, or uid 0); ids that were not requested are the caller's (saved := effective at the
-    exec); the supplementary groups are the caller's, untouched; the process group is the caller's, its own, or the
-    requested one. -/
+    uid in all three fields AND exactly the requested gid in all three fields, whenever requested (the gid step comes
+    first, 925c7e5: it still has the privilege); ids that were not requested are the caller's (saved := effective at
+    the exec); the supplementary groups are the caller's, untouched; the process group is the caller's, its own, or
+    the requested one. -/
 theorem spawn_ids_exact (p : PCtx) (c : Cred) (q : IdReq) (ch : ChildId)
     (h : idSteps p c q = .ok ch) (hc : capable c = true) :
     (∀ u, q.uid = some u → ch.cred.uid = ⟨u, u, u⟩) ∧
-    (∀ g, q.gid = some g → (q.uid = none ∨ q.uid = some 0) → ch.cred.gid = ⟨g, g, g⟩) ∧
+    (∀ g, q.gid = some g → ch.cred.gid = ⟨g, g, g⟩) ∧
     (q.uid = none → ch.cred.uid = ⟨c.uid.r, c.uid.e, c.uid.e⟩) ∧
     (q.gid = none → ch.cred.gid = ⟨c.gid.r, c.gid.e, c.gid.e⟩) ∧
     ch.cred.groups = c.groups ∧
     (q.pgroup = none → ch.pgid = p.callerPgid) ∧ (q.pgroup = some 0 → ch.pgid = p.self) ∧
     (∀ g, g ≠ 0 → q.pgroup = some g → ch.pgid = g) := by
   obtain ⟨c1, c2, pg, h1, h2, h3, rfl⟩ := (idSteps_ok p c q ch).1 h
+  obtain ⟨ku, kg, kc⟩ := gidStep_keeps c c1 q.gid h1
+  obtain ⟨k2g, k2s⟩ := uidStep_keeps c1 c2 q.uid h2
+  have hc1 : capable c1 = true := by rw [kc]; exact hc
   rw [optStep_ok] at h1 h2 h3
-  -- the uid step
-  have hu : (q.uid = none ∧ c1 = c) ∨ (∃ u, q.uid = some u ∧ c1 = { c with uid := ⟨u, u, u⟩ }) := by
+  -- the gid step
+  have hg : (q.gid = none ∧ c1 = c) ∨ (∃ g, q.gid = some g ∧ c1.gid = ⟨g, g, g⟩) := by
     cases h1 with
     | inl h => exact Or.inl h
     | inr h =>
-      obtain ⟨u, hq, hs⟩ := h
-      obtain ⟨i, hi, rfl⟩ := (setuid_ok c c1 u).1 hs
+      obtain ⟨g, hq, hs⟩ := h
+      obtain ⟨i, hi, rfl⟩ := (setgid_ok c c1 g).1 hs
       rw [hc, setIds_ok] at hi
       cases hi with
-      | inl hi => exact Or.inr ⟨u, hq, by rw [hi.2]⟩
+      | inl hi => exact Or.inr ⟨g, hq, by rw [hi.2]⟩
       | inr hi => exact absurd hi.1 (by simp)
-  have hg1 : c1.gid = c.gid ∧ c1.groups = c.groups := by
-    cases hu with
-    | inl h => rw [h.2]; exact ⟨rfl, rfl⟩
-    | inr h => obtain ⟨u, _, rfl⟩ := h; exact ⟨rfl, rfl⟩
-  -- the gid step
-  have hg : (q.gid = none ∧ c2 = c1) ∨ (∃ g i, q.gid = some g ∧ setIds (capable c1) c1.gid g = .ok i ∧ c2 = { c1 with gid := i }) := by
+  -- the uid step
+  have hu : (q.uid = none ∧ c2 = c1) ∨ (∃ u, q.uid = some u ∧ c2.uid = ⟨u, u, u⟩) := by
     cases h2 with
     | inl h => exact Or.inl h
     | inr h =>
-      obtain ⟨g, hq, hs⟩ := h
-      obtain ⟨i, hi, rfl⟩ := (setgid_ok c1 c2 g).1 hs
-      exact Or.inr ⟨g, i, hq, hi, rfl⟩
-  have hu2 : c2.uid = c1.uid ∧ c2.groups = c1.groups := by
-    cases hg with
-    | inl h => rw [h.2]; exact ⟨rfl, rfl⟩
-    | inr h => obtain ⟨g, i, _, _, rfl⟩ := h; exact ⟨rfl, rfl⟩
+      obtain ⟨u, hq, hs⟩ := h
+      obtain ⟨i, hi, rfl⟩ := (setuid_ok c1 c2 u).1 hs
+      rw [hc1, setIds_ok] at hi
+      cases hi with
+      | inl hi => exact Or.inr ⟨u, hq, by rw [hi.2]⟩
+      | inr hi => exact absurd hi.1 (by simp)
   refine ⟨?_, ?_, ?_, ?_, ?_, ?_, ?_, ?_⟩
   · intro u hq
     cases hu with
     | inl h => rw [h.1] at hq; cases hq
     | inr h =>
-      obtain ⟨u', hq', rfl⟩ := h
+      obtain ⟨u', hq', hv⟩ := h
       rw [hq'] at hq; cases hq
-      simp [execCred, hu2.1]
-  · intro g hq hpriv
+      simp [execCred, hv]
+  · intro g hq
     cases hg with
     | inl h => rw [h.1] at hq; cases hq
     | inr h =>
-      obtain ⟨g', i, hq', hi, rfl⟩ := h
+      obtain ⟨g', hq', hv⟩ := h
       rw [hq'] at hq; cases hq
-      have hcap : capable c1 = true := by
-        cases hu with
-        | inl h => rw [h.2]; exact hc
-        | inr h =>
-          obtain ⟨u, hqu, rfl⟩ := h
-          cases hpriv with
-          | inl hn => rw [hn] at hqu; cases hqu
-          | inr hz => rw [hz] at hqu; cases hqu; rfl
-      rw [hcap, setIds_ok] at hi
-      cases hi with
-      | inl hi => simp [execCred, hi.2]
-      | inr hi => exact absurd hi.1 (by simp)
+      simp [execCred, k2g, hv]
   · intro hq
     cases hu with
-    | inl h => simp [execCred, hu2.1, h.2]
+    | inl h => simp [execCred, h.2, ku]
     | inr h => obtain ⟨u, hq', _⟩ := h; rw [hq] at hq'; cases hq'
   · intro hq
     cases hg with
-    | inl h => simp [execCred, h.2, hg1.1]
-    | inr h => obtain ⟨g, i, hq', _, _⟩ := h; rw [hq] at hq'; cases hq'
-  · simp [execCred, hu2.2, hg1.2]
+    | inl h => simp [execCred, k2g, h.2]
+    | inr h => obtain ⟨g, hq', _⟩ := h; rw [hq] at hq'; cases hq'
+  · simp [execCred, k2s, kg]
   · intro hq
     cases h3 with
     | inl h => exact h.2
@@ -925,53 +928,48 @@ theorem spawn_ids_exact (p : PCtx) (c : Cred) (q : IdReq) (ch : ChildId)
 theorem spawn_ids_effective (p : PCtx) (c : Cred) (q : IdReq) (ch : ChildId) (h : idSteps p c q = .ok ch) :
     (∀ u, q.uid = some u → ch.cred.uid.e = u ∧ ch.cred.uid.s = u ∧
       (ch.cred.uid.r = u ∨ (capable c = false ∧ ch.cred.uid.r = c.uid.r))) ∧
-    (∀ g, q.gid = some g → ch.cred.gid.e = g ∧ ch.cred.gid.s = g ∧ (ch.cred.gid.r = g ∨ ch.cred.gid.r = c.gid.r)) := by
+    (∀ g, q.gid = some g → ch.cred.gid.e = g ∧ ch.cred.gid.s = g ∧
+      (ch.cred.gid.r = g ∨ (capable c = false ∧ ch.cred.gid.r = c.gid.r))) := by
   obtain ⟨c1, c2, pg, h1, h2, _, rfl⟩ := (idSteps_ok p c q ch).1 h
+  obtain ⟨ku, _, kc⟩ := gidStep_keeps c c1 q.gid h1
+  obtain ⟨k2g, _⟩ := uidStep_keeps c1 c2 q.uid h2
   rw [optStep_ok] at h1 h2
-  have hg1 : c1.gid = c.gid := by
-    cases h1 with
-    | inl h => rw [h.2]
-    | inr h => obtain ⟨u, _, hs⟩ := h; obtain ⟨i, _, rfl⟩ := (setuid_ok c c1 u).1 hs; rfl
-  have hu2 : c2.uid = c1.uid := by
-    cases h2 with
-    | inl h => rw [h.2]
-    | inr h => obtain ⟨g, _, hs⟩ := h; obtain ⟨i, _, rfl⟩ := (setgid_ok c1 c2 g).1 hs; rfl
   constructor
   · intro u hq
-    cases h1 with
+    cases h2 with
     | inl h => rw [h.1] at hq; cases hq
     | inr h =>
       obtain ⟨u', hq', hs⟩ := h
       rw [hq'] at hq; cases hq
-      obtain ⟨i, hi, rfl⟩ := (setuid_ok c c1 u).1 hs
+      obtain ⟨i, hi, rfl⟩ := (setuid_ok c1 c2 u).1 hs
       rw [setIds_ok] at hi
       cases hi with
-      | inl hi => simp [execCred, hu2, hi.2]
-      | inr hi => simp [execCred, hu2, hi.2.2, hi.1]
+      | inl hi => simp [execCred, hi.2]
+      | inr hi => rw [kc] at hi; simp [execCred, hi.2.2, hi.1, ku]
   · intro g hq
-    cases h2 with
+    cases h1 with
     | inl h => rw [h.1] at hq; cases hq
     | inr h =>
       obtain ⟨g', hq', hs⟩ := h
       rw [hq'] at hq; cases hq
-      obtain ⟨i, hi, rfl⟩ := (setgid_ok c1 c2 g).1 hs
+      obtain ⟨i, hi, rfl⟩ := (setgid_ok c c1 g).1 hs
       rw [setIds_ok] at hi
       cases hi with
-      | inl hi => simp [execCred, hi.2]
-      | inr hi => simp [execCred, hi.2.2, hg1]
+      | inl hi => simp [execCred, k2g, hi.2]
+      | inr hi => simp [execCred, k2g, hi.2.2, hi.1]
 
 theorem idSteps_err (p : PCtx) (c : Cred) (q : IdReq) (x : CStep × Nat) :
     idSteps p c q = .error x ↔
-      optStep .setuid q.uid (setuid c) c = .error x ∨
-      (∃ c1, optStep .setuid q.uid (setuid c) c = .ok c1 ∧ optStep .setgid q.gid (setgid c1) c1 = .error x) ∨
-      (∃ c1 c2, optStep .setuid q.uid (setuid c) c = .ok c1 ∧ optStep .setgid q.gid (setgid c1) c1 = .ok c2 ∧
+      optStep .setgid q.gid (setgid c) c = .error x ∨
+      (∃ c1, optStep .setgid q.gid (setgid c) c = .ok c1 ∧ optStep .setuid q.uid (setuid c1) c1 = .error x) ∨
+      (∃ c1 c2, optStep .setgid q.gid (setgid c) c = .ok c1 ∧ optStep .setuid q.uid (setuid c1) c1 = .ok c2 ∧
         optStep .setpgid q.pgroup (setpgid p) p.callerPgid = .error x) := by
   unfold idSteps
-  cases h1 : optStep .setuid q.uid (setuid c) c with
+  cases h1 : optStep .setgid q.gid (setgid c) c with
   | error y => simp
   | ok c1 =>
     simp only
-    cases h2 : optStep .setgid q.gid (setgid c1) c1 with
+    cases h2 : optStep .setuid q.uid (setuid c1) c1 with
     | error y => simp [h2]
     | ok c2 =>
       simp only
@@ -979,42 +977,36 @@ theorem idSteps_err (p : PCtx) (c : Cred) (q : IdReq) (x : CStep × Nat) :
       | error y => simp [h2]
       | ok pg => simp [h2]
 
-/-- If an identity step fails, it fails with EPERM, and exactly for the kernel's reason: the uid step when the caller is
-    unprivileged and the uid is neither its real nor its saved one; the gid step when the gid is neither the real nor
-    the saved one and the privilege is not there — never was, or THE UID STEP JUST GAVE IT AWAY (`root_uid_then_gid_fails`);
-    the pgroup step when the group does not exist in the session. -/
+/-- If an identity step fails, it fails with EPERM, and exactly for the kernel's reason: the gid (uid) step when the
+    caller is unprivileged and the id is neither its real nor its saved one — the privilege at the uid step is the
+    caller's own, the gid step before it does not touch it; the pgroup step when the group does not exist in the
+    session.  A privileged caller's uid and gid steps never fail. -/
 theorem spawn_ids_err (p : PCtx) (c : Cred) (q : IdReq) (st : CStep) (e : Nat) (h : idSteps p c q = .error (st, e)) :
     e = EPERM ∧
-    ((st = .setuid ∧ ∃ u, q.uid = some u ∧ capable c = false ∧ u ≠ c.uid.r ∧ u ≠ c.uid.s) ∨
-     (st = .setgid ∧ ∃ g, q.gid = some g ∧ g ≠ c.gid.r ∧ g ≠ c.gid.s ∧
-        (capable c = false ∨ ∃ u, q.uid = some u ∧ u ≠ 0)) ∨
+    ((st = .setgid ∧ ∃ g, q.gid = some g ∧ capable c = false ∧ g ≠ c.gid.r ∧ g ≠ c.gid.s) ∨
+     (st = .setuid ∧ ∃ u, q.uid = some u ∧ capable c = false ∧ u ≠ c.uid.r ∧ u ≠ c.uid.s) ∨
      (st = .setpgid ∧ ∃ g, q.pgroup = some g ∧ g ≠ 0 ∧ g ≠ p.callerPgid ∧ g ∉ p.session)) := by
   rw [idSteps_err] at h
   rcases h with h | ⟨c1, h1, h2⟩ | ⟨c1, c2, _, _, h3⟩
-  · obtain ⟨u, hq, hs, rfl⟩ := (optStep_err _ _ _ _ _ _).1 h
-    rw [setuid_err, setIds_err] at hs
-    exact ⟨hs.2.2.2, Or.inl ⟨rfl, u, hq, hs.1, hs.2.1, hs.2.2.1⟩⟩
-  · obtain ⟨g, hq, hs, rfl⟩ := (optStep_err _ _ _ _ _ _).1 h2
+  · obtain ⟨g, hq, hs, rfl⟩ := (optStep_err _ _ _ _ _ _).1 h
     rw [setgid_err, setIds_err] at hs
-    rw [optStep_ok] at h1
-    refine ⟨hs.2.2.2, Or.inr (Or.inl ⟨rfl, g, hq, ?_⟩)⟩
-    cases h1 with
-    | inl h => rw [h.2] at hs; exact ⟨hs.2.1, hs.2.2.1, Or.inl hs.1⟩
-    | inr h =>
-      obtain ⟨u, hqu, hsu⟩ := h
-      obtain ⟨i, hi, rfl⟩ := (setuid_ok c c1 u).1 hsu
-      refine ⟨hs.2.1, hs.2.2.1, ?_⟩
-      rw [setIds_ok] at hi
-      cases hi with
-      | inl hi =>
-        refine Or.inr ⟨u, hqu, ?_⟩
-        have := hs.1
-        simp only [capable, hi.2] at this
-        intro hz; rw [hz] at this; simp at this
-      | inr hi => exact Or.inl hi.1
+    exact ⟨hs.2.2.2, Or.inl ⟨rfl, g, hq, hs.1, hs.2.1, hs.2.2.1⟩⟩
+  · obtain ⟨u, hq, hs, rfl⟩ := (optStep_err _ _ _ _ _ _).1 h2
+    obtain ⟨ku, _, kc⟩ := gidStep_keeps c c1 q.gid h1
+    rw [setuid_err, setIds_err, kc, ku] at hs
+    exact ⟨hs.2.2.2, Or.inr (Or.inl ⟨rfl, u, hq, hs.1, hs.2.1, hs.2.2.1⟩)⟩
   · obtain ⟨g, hq, hs, rfl⟩ := (optStep_err _ _ _ _ _ _).1 h3
     rw [setpgid_err] at hs
     exact ⟨hs.2.2.2, Or.inr (Or.inr ⟨rfl, g, hq, hs.1, hs.2.1, hs.2.2.1⟩)⟩
+
+/-- a privileged caller: no uid or gid request is ever refused -/
+theorem privileged_ids_never_refused (p : PCtx) (c : Cred) (q : IdReq) (st : CStep) (e : Nat)
+    (hc : capable c = true) (h : idSteps p c q = .error (st, e)) : st = .setpgid := by
+  obtain ⟨_, hst⟩ := spawn_ids_err p c q st e h
+  rcases hst with ⟨_, _, _, hf, _⟩ | ⟨_, _, _, hf, _⟩ | ⟨hs, _⟩
+  · rw [hc] at hf; cases hf
+  · rw [hc] at hf; cases hf
+  · exact hs
 
 /-- Tie to the protocol (`spawn`): with the fault the identity steps themselves cause, the caller gets Ok and the
     image runs iff every identity step succeeded; otherwise Err with the failing step's errno (EPERM), the child
@@ -1031,14 +1023,14 @@ theorem spawn_ids_result (p : PCtx) (c : Cred) (q : IdReq) (cfg : Config) (hm : 
     obtain ⟨he, hst⟩ := spawn_ids_err p c q st e h
     obtain ⟨m1, m2, m3⟩ := hm
     have hmem : st ∈ childSteps cfg := by
-      rcases hst with ⟨rfl, u, hq, _⟩ | ⟨rfl, g, hq, _⟩ | ⟨rfl, g, hq, _⟩
-      · rw [hq] at m1; simp [childSteps, m1]
+      rcases hst with ⟨rfl, g, hq, _⟩ | ⟨rfl, u, hq, _⟩ | ⟨rfl, g, hq, _⟩
       · rw [hq] at m2; simp [childSteps, m2]
+      · rw [hq] at m1; simp [childSteps, m1]
       · rw [hq] at m3; simp [childSteps, m3]
     simp only [idFault]
     exact spawn_err_code cfg _ e (List.idxOf_lt_length_of_mem hmem) (by rw [he]; decide)
 
-/-! the seeded class and what the code's order costs — witnesses, all on concrete states (A = 4242, B = 4343) -/
+/-! the seeded class, the repaired order defect (Legacy) — witnesses on concrete states (A = 4242, B = 4343) -/
 
 /-- SEEDED C13-m8: skipping the uid step "because the real uid already is the requested one" leaves a caller with
     (real, effective, saved) = (A, 0, 0) — every set-user-ID-root program — with a child that still has effective and
@@ -1058,27 +1050,30 @@ theorem skip_setgid_when_real_equal_violates :
     (idSteps p c q).toOption.map (·.cred.gid) = some ⟨4343, 4343, 4343⟩ ∧
       (idStepsSkipGid p c q).toOption.map (·.cred.gid) = some ⟨4343, 0, 0⟩ := by decide
 
-/-- CANDIDATE FINDING (order of the steps).  The uid step comes first: a privileged caller that asks for a uid other
-    than 0 AND a gid that is not already its real or saved gid — the ordinary "drop to user and group" of a root
-    process — has given the privilege away before the gid step: `spawn` returns Err(EPERM), for every such state. -/
-theorem root_uid_then_gid_fails (p : PCtx) (c : Cred) (u g : Nat) (pg : Option Nat)
-    (hc : capable c = true) (hu : u ≠ 0) (h1 : g ≠ c.gid.r) (h2 : g ≠ c.gid.s) :
-    idSteps p c ⟨some u, some g, pg⟩ = .error (.setgid, EPERM) := by
-  have he : c.uid.e = 0 := by simpa [capable] using hc
-  simp [idSteps, optStep, setuid, setgid, setIds, capable, he, hu, h1, h2]
-
-/-- ... whereas the order gid-then-uid (what std::process does) delivers both, exactly -/
+/-- THE CURRENT CODE (gid first, 925c7e5): a privileged caller's `.uid(u).gid(g)` — the ordinary "drop to user and
+    group" of a root process — is delivered exactly, for every state, uid and gid -/
 theorem gid_first_delivers (p : PCtx) (c : Cred) (u g : Nat) (hc : capable c = true) :
-    idStepsGidFirst p c ⟨some u, some g, none⟩ =
+    idSteps p c ⟨some u, some g, none⟩ =
       .ok ⟨⟨⟨u, u, u⟩, ⟨g, g, g⟩, c.groups⟩, p.callerPgid⟩ := by
   have he : c.uid.e = 0 := by simpa [capable] using hc
-  simp [idStepsGidFirst, optStep, setuid, setgid, setIds, capable, he, execCred]
+  simp [idSteps, optStep, setuid, setgid, setIds, capable, he, execCred]
 
-/-- CANDIDATE FINDING (same cause): root with SAVED gid B asks `.uid(A).gid(B)`: Ok, but the gid step ran
-    unprivileged, so only the effective gid moved — the image's REAL gid is still 0 -/
-theorem gid_after_uid_keeps_real_gid :
+/-- REPAIRED DEFECT (925c7e5; found by this model).  Before, the uid step came first: a privileged caller asking for
+    a uid other than 0 AND a gid that is not already its real or saved gid had given the privilege away before the
+    gid step: `spawn` returned Err(EPERM), for every such state. -/
+theorem legacy_root_uid_then_gid_fails (p : PCtx) (c : Cred) (u g : Nat) (pg : Option Nat)
+    (hc : capable c = true) (hu : u ≠ 0) (h1 : g ≠ c.gid.r) (h2 : g ≠ c.gid.s) :
+    Legacy.idSteps p c ⟨some u, some g, pg⟩ = .error (.setgid, EPERM) := by
+  have he : c.uid.e = 0 := by simpa [capable] using hc
+  simp [Legacy.idSteps, optStep, setuid, setgid, setIds, capable, he, hu, h1, h2]
+
+/-- the same defect, silent form: root with SAVED gid B asking `.uid(A).gid(B)` got Ok, but the gid step ran
+    unprivileged, only the effective gid moved — the image's REAL gid was still 0; the current code delivers B -/
+theorem legacy_gid_after_uid_keeps_real_gid :
+    (Legacy.idSteps ⟨1000, 900, [950]⟩ ⟨⟨0, 0, 0⟩, ⟨0, 0, 4343⟩, []⟩ ⟨some 4242, some 4343, none⟩).toOption.map (·.cred)
+      = some ⟨⟨4242, 4242, 4242⟩, ⟨0, 4343, 4343⟩, []⟩ ∧
     (idSteps ⟨1000, 900, [950]⟩ ⟨⟨0, 0, 0⟩, ⟨0, 0, 4343⟩, []⟩ ⟨some 4242, some 4343, none⟩).toOption.map (·.cred)
-      = some ⟨⟨4242, 4242, 4242⟩, ⟨0, 4343, 4343⟩, []⟩ := by decide
+      = some ⟨⟨4242, 4242, 4242⟩, ⟨4343, 4343, 4343⟩, []⟩ := by decide
 
 /-- why `spawn_ids_exact` needs the privilege: (A, A, 0) asking `.uid(0)` is allowed (saved uid) and moves the
     effective uid only — Ok, real uid still A.  Kernel semantics of the promised step, not a defect of the code. -/
@@ -1086,7 +1081,8 @@ theorem unprivileged_setuid_keeps_real_uid :
     (idSteps ⟨1000, 900, [950]⟩ ⟨⟨4242, 4242, 0⟩, ⟨0, 0, 0⟩, []⟩ ⟨some 0, none, none⟩).toOption.map (·.cred.uid)
       = some ⟨4242, 0, 0⟩ := by decide
 
-/-- CANDIDATE FINDING (no setgroups): the supplementary groups survive a full drop of uid and gid -/
+/-- DOCUMENTED FACT (Command has no groups API, no setgroups call): the supplementary groups survive a full drop of
+    uid and gid -/
 theorem groups_survive_drop :
     (idSteps ⟨1000, 900, [950]⟩ ⟨⟨0, 0, 0⟩, ⟨4242, 4242, 4242⟩, [0, 4343]⟩ ⟨some 4242, some 4242, some 0⟩).toOption
       = some ⟨⟨⟨4242, 4242, 4242⟩, ⟨4242, 4242, 4242⟩, [0, 4343]⟩, 1000⟩ := by decide
@@ -1135,14 +1131,17 @@ example : envRounds true [100, 101] (newB true 7) [[.cmd (.envs [])], [.cwd], [.
 example : deref [3, 1, 0, 9] = [2, 0] := by decide
 
 /-! identity -/
-example : idSteps ⟨1000, 900, [950]⟩ ⟨⟨0, 0, 0⟩, ⟨0, 0, 0⟩, [7]⟩ ⟨some 4242, some 4343, some 950⟩ = .error (.setgid, EPERM) := by rfl
+example : Legacy.idSteps ⟨1000, 900, [950]⟩ ⟨⟨0, 0, 0⟩, ⟨0, 0, 0⟩, [7]⟩ ⟨some 4242, some 4343, some 950⟩ = .error (.setgid, EPERM) := by rfl
+example : idSteps ⟨1000, 900, [950]⟩ ⟨⟨0, 0, 0⟩, ⟨0, 0, 0⟩, [7]⟩ ⟨some 4242, some 4343, some 950⟩
+    = .ok ⟨⟨⟨4242, 4242, 4242⟩, ⟨4343, 4343, 4343⟩, [7]⟩, 950⟩ := by rfl
 example : idSteps ⟨1000, 900, [950]⟩ ⟨⟨0, 0, 0⟩, ⟨0, 0, 0⟩, [7]⟩ ⟨none, some 4343, some 950⟩
     = .ok ⟨⟨⟨0, 0, 0⟩, ⟨4343, 4343, 4343⟩, [7]⟩, 950⟩ := by rfl
 example : idSteps ⟨1000, 900, [950]⟩ ⟨⟨4242, 4343, 4242⟩, ⟨0, 0, 0⟩, []⟩ ⟨some 0, none, none⟩ = .error (.setuid, EPERM) := by rfl
 example : idSteps ⟨1000, 900, [950]⟩ ⟨⟨0, 0, 0⟩, ⟨0, 0, 0⟩, []⟩ ⟨none, none, some 999⟩ = .error (.setpgid, EPERM) := by rfl
 example : idSteps ⟨1000, 900, [950]⟩ ⟨⟨4242, 4343, 0⟩, ⟨0, 0, 0⟩, []⟩ ⟨none, none, some 0⟩
     = .ok ⟨⟨⟨4242, 4343, 4343⟩, ⟨0, 0, 0⟩, []⟩, 1000⟩ := by rfl
-example : idFault ⟨[1], true, true, true, false, 0⟩ (.error (.setgid, EPERM)) = some (3, some 1) := by decide
+example : idFault ⟨[1], true, true, true, false, 0⟩ (.error (.setgid, EPERM)) = some (2, some 1) := by decide
+example : idFault ⟨[1], true, true, true, false, 0⟩ (.error (.setuid, EPERM)) = some (3, some 1) := by decide
 example : cfgMatches ⟨[1], true, true, true, false, 0⟩ ⟨some 1, some 2, none⟩ := ⟨rfl, rfl, rfl⟩
 
 /-- a poll (`try_wait`) that finds the child still running leaves the handle exactly as it was — nothing is cached —
